@@ -187,6 +187,27 @@ def run_pipeline(rid, spec, n_samples=1, seed=0, interp=True):
             return dict(status='interp', stage='litert', exc=type(e).__name__, msg=str(e)[:160].replace('\n', ' '), site=None)
     return dict(status='ok')
 
+def run_sequence(rid_a, rid_b, spec, n_samples=1, seed=0):
+    """ONE Quantizer used for two shipped recipes one after the other (load A -> calibrate when needed -> quantize; load B unchanged -> calibrate when needed -> quantize).
+    -> (status of the second run, status of the same recipe B on a FRESH Quantizer): a shipped recipe "loaded unchanged" must not be rejected because of what the object did before"""
+    import absl.logging; absl.logging.set_verbosity('error')
+    from ai_edge_quantizer import quantizer
+    mb = build(spec); data = data_for(max(1, n_samples), seed)
+    def step(qt):
+        try:
+            cal = qt.calibrate(data[:n_samples]) if qt.need_calibration else None
+            q = qt.quantize(cal).quantized_model
+            return dict(status='ok') if q else dict(status='raise', exc='NoModel', msg='quantize() returned no model', site=None)
+        except Exception as e: return dict(status='raise', exc=type(e).__name__, msg=str(e)[:160], site=site_of(e.__traceback__))
+    try:
+        qt = quantizer.Quantizer(bytearray(mb), load_recipe(rid_a)); step(qt)
+        rb = load_recipe(rid_b); qt.load_quantization_recipe(rb); second = step(qt)
+    except Exception as e: second = dict(status='raise', exc=type(e).__name__, msg=str(e)[:160], site=site_of(e.__traceback__))
+    try: fresh = step(quantizer.Quantizer(bytearray(mb), load_recipe(rid_b)))
+    except Exception as e: fresh = dict(status='raise', exc=type(e).__name__, msg=str(e)[:160], site=site_of(e.__traceback__))
+    return second, fresh
+SEQ_SPECS = [dict(ops=[('FC', 0, -1), ('TANH', 1, -1), ('MUL', 2, -2), ('ADD', 3, 2)], outs=[4]), dict(ops=[('TANH', 0, -1), ('MUL', 1, -2)], outs=[2]), dict(ops=[('FC', 0, -1), ('ABS', 1, -1), ('SUB', 2, -2)], outs=[3])]
+
 # ------------------------------------------------------------------------------------------------ class predicates of the known findings
 def _params_differ(p, q):
     """value comparison of two consumer parameter objects, written from the property text ("consumers needing different parameters")"""
